@@ -619,6 +619,21 @@ func (it *Interp) doCall(fr *frame, call *ssa.Call, p *path, depth int, k func(p
 			}
 		}
 	}
+	// error constructors: errors.New / fmt.Errorf / errors.Errorf are never nil; errors.Wrap* is nil
+	// exactly when the wrapped error is
+	if nres == 1 {
+		if nonNilCtors[name] {
+			k(p, AVal{K: ANonNil}, false)
+			return
+		}
+		switch name {
+		case "github.com/pkg/errors.Wrapf", "github.com/pkg/errors.Wrap", "github.com/pkg/errors.WithStack", "github.com/pkg/errors.WithMessage", "github.com/pkg/errors.WithMessagef":
+			if len(args) > 0 && (args[0].K == ANil || args[0].K == ANonNil) {
+				k(p, AVal{K: args[0].K}, false)
+				return
+			}
+		}
+	}
 	// opaque call
 	vals := make([]AVal, nres)
 	if nres == 0 {
